@@ -357,7 +357,38 @@ pub fn run(rep: &mut Rep) {
         case(rep, &id, &long, &plan, &lref);
         rep.add("random_compositions", 1);
     }
-    // ---- thorough: one packet needing a 4-byte remaining length
+    // ---- a packet needing a 4-byte remaining length: cuts inside its fixed header (after 1..=6 bytes), and its
+    // header straddling the client's own 512-byte read step (fillers of 500..=515 bytes in front, everything available)
+    {
+        let big = vec![Item::PingResp, Item::Pub(1, 2_100_000), Item::PingResp];
+        let (_, bbytes, _) = build(rep.seed, &big);
+        let bref = reference(rep, &big);
+        // offset of the big packet inside the stream = length of the PINGRESP
+        for cut in 1..=8usize {
+            for mode in 0..2 {
+                let id = format!("hdr4:{cut}:{mode}");
+                idx += 1;
+                if rep.take(idx, &id) {
+                    let plan = if mode == 0 { Plan::Trickle(vec![2 + cut]) } else { Plan::Caps(vec![2 + cut]) };
+                    case(rep, &id, &big, &plan, &bref);
+                    rep.add("four_byte_remaining_length_cases", 1);
+                }
+            }
+        }
+        let fillers: Vec<usize> = if rep.quick() { (500..=515).collect() } else { (480..=540).chain(1000..=1040).collect() };
+        for filler in fillers {
+            let id = format!("hdr4-align:{filler}");
+            idx += 1;
+            if rep.take(idx, &id) {
+                // PUBLISH QoS 0 with topic "i/0": 2 (fixed header) + 5 (topic) + 1 (property length) + 2 (sub id) = 10 bytes of overhead
+                let seq = vec![Item::Pub(0, filler.saturating_sub(10)), Item::Pub(2, 2_100_000), Item::PingResp];
+                let r = reference(rep, &seq);
+                case(rep, &id, &seq, &Plan::Caps(vec![]), &r);
+                rep.add("four_byte_remaining_length_cases", 1);
+            }
+        }
+    }
+    // ---- thorough: one packet needing a 4-byte remaining length under more plans
     if !rep.quick() {
         let seq = vec![Item::PingResp, Item::Pub(1, 2_100_000), Item::PingResp, Item::Pub(0, 5)];
         let r = reference(rep, &seq);
